@@ -201,27 +201,37 @@ def switches_on_discr_of(body, match_place):
     return switches_on_expr(body, lambda e: e[0] == "discr" and match_place(e[2]))
 
 
-def call_result_switches(body, call_bb):
+def call_result_switches(body, call_bb, first_only=True):
     """switches deciding on the boolean result of call_bb, or on the discriminant of its result
-    (directly or through Try::branch / copies)."""
+    (directly, through copies/moves, or through Try::branch). Only the switch(es) not dominated
+    by another switch on the same value are returned (drop elaboration re-tests discriminants
+    later on; those tests are not decisions of the program)."""
     out = []
     for i, b in enumerate(body.blocks):
         t = b["term"]
         if t["t"] != "switch" or body.is_cleanup(i):
             continue
         e = body.expr(t["on"])
-        neg = False
         while e[0] == "not":
             e = e[1]
-            neg = not neg
         if e == ("call", call_bb):
             out.append((i, "bool"))
         elif e[0] in ("discr", "place"):
             pl = e[2]
             for root, path in body.resolve(pl):
-                if root == ("call", call_bb):
+                if root == ("call", call_bb) and all(x in (".branch",) for x in path):
                     out.append((i, "discr" if e[0] == "discr" else "bool"))
                     break
+                if e[0] == "place" and root == ("call", call_bb) and all(x in (".branch", " as Continue", ".0") for x in path):
+                    # the bool payload of `call(..)?`
+                    out.append((i, "bool"))
+                    break
+    if first_only and len(out) > 1:
+        keep = []
+        for i, m in out:
+            if not any(j != i and body.dominates(j, i) for j, m2 in out if m2 == m):
+                keep.append((i, m))
+        out = keep
     return out
 
 
@@ -250,4 +260,82 @@ def loop_exit_edges(body, blocks):
         for tgt, lab in body.succ_edges(b):
             if tgt not in blocks:
                 out.append((b, tgt, lab))
+    return out
+
+
+# ------------------------------------------------------------------------------------------
+# Result / Option continuations of a call
+# ------------------------------------------------------------------------------------------
+
+
+def result_split(body, call_bb):
+    """(ok_edges, err_edges, returned_directly) for a call producing a Result (or ControlFlow via
+    `?`): edges are (switch_bb, target). Discriminant 0 = Ok/Continue, 1 = Err/Break.
+    returned_directly: the result (or a move of it) is the function's return value without any
+    branch on it."""
+    ok, err = [], []
+    for sw, mode in call_result_switches(body, call_bb):
+        if mode != "discr":
+            continue
+        ok += discr_edges(body, sw, 0)
+        err += discr_edges(body, sw, 1)
+    cs = body.call_at(call_bb)
+    direct = False
+    if cs is not None:
+        if cs.dest["l"] == 0:
+            direct = True
+        else:
+            for i, j, st in body.statements():
+                if st["s"] == "assign" and st["pl"]["l"] == 0 and not st["pl"]["p"] and st["rv"]["r"] == "use":
+                    if resolves_to_call(body, st["rv"]["o"], [call_bb]) and not body.is_cleanup(i):
+                        direct = True
+    return ok, err, direct
+
+
+def option_split(body, call_bb):
+    """(some_edges, none_edges) for a call producing an Option, or a Result<Option<_>, _> whose
+    Ok payload is tested after `?` / `if let Ok(..)`"""
+    some, none = [], []
+    found = []
+    for i, b in enumerate(body.blocks):
+        t = b["term"]
+        if t["t"] != "switch" or body.is_cleanup(i):
+            continue
+        e = body.expr(t["on"])
+        if e[0] != "discr":
+            continue
+        for root, path in body.resolve(e[2]):
+            if root == ("call", call_bb) and path in ((), (".branch", " as Continue", ".0"), (" as Ok", ".0"), (".branch",)):
+                found.append((i, path))
+                break
+    # payload tests take precedence over the outer Result test
+    payload = [x for x in found if x[1] not in ((), (".branch",))]
+    use = payload or found
+    use = [i for i, _ in use if not any(j != i and body.dominates(j, i) for j, _ in use)]
+    for sw in use:
+        none += discr_edges(body, sw, 0)
+        some += discr_edges(body, sw, 1)
+    return some, none
+
+
+def bool_split(body, call_bb):
+    tr, fa = [], []
+    for sw, mode in call_result_switches(body, call_bb):
+        if mode != "bool":
+            continue
+        tr += edges_of_value(body, sw, True)
+        fa += edges_of_value(body, sw, False)
+    return tr, fa
+
+
+def closure_bodies_passed(body, cs):
+    """local closure bodies handed to this call as arguments"""
+    out = []
+    facts = body.facts
+    for a in cs.args:
+        for r, _ in body.resolve(a):
+            if r[0] == "agg":
+                rv = body.agg_at(r[1], r[2])
+                if rv.get("kind") == "closure" and rv.get("def") in facts.bodies:
+                    out.append(facts.bodies[rv["def"]])
     return out
